@@ -672,3 +672,46 @@ addendum('C10', 'R10 = no return / break / continue inside a finally block '
          '(C05.R9).')
 addendum('C12', 'R1 includes a shape-independent part: whatever measures a '
          'text that is written encoded measures bytes.')
+
+
+# ---- round 11 (DESIGN.md 8.4, "Round 11")
+IDKEY = ('no value of the builtin id() outlives the function that took it '
+         '(sa/idkeys.py; fixture fixtures/id_keys.py)')
+addendum('C01', 'R13: ' + IDKEY + '.')
+addendum('C05', 'R15: ' + IDKEY + '; R13: the input _apply_mutator returns '
+         'replaces the current input of ddmin.reduce on every path '
+         '(sa/adoptres.py); R14: memoised functions on the candidate path '
+         'depend only on their key.')
+addendum('C06', 'R9: ' + IDKEY + '; R10 = the echo part of C05.R4 (the '
+         'list reported as accepted is the list that was checked); R4 also '
+         'scans the launcher scripts under bin/.')
+addendum('C18', 'R8: ' + IDKEY + '; R7: hash values are compared, stored '
+         'and pickled, never formatted into text, used in arithmetic or to '
+         'order values.')
+addendum('C02', 'R15 = C15.R3 (every leaf a mutator builds is one token).')
+addendum('C07', 'R12 = C15.R3; R13 = the tmpfiles part of C09.R6 (one '
+         'candidate file per process and thread).')
+addendum('C03', 'R14: self-recursive, non-memoised functions of smtlib.py '
+         'make no self-call twice on one path (sa/dupcalls.py); R15: the '
+         '"reduced" count of an accepted ddmin result is the plain '
+         'difference of one counter.')
+addendum('C04', 'R19 = the nullness part of C10.R3; R20: file names '
+         'assembled in place consist of counters, ids and paths '
+         '(sa/filenames.py); R21: assertions of the tree core test types '
+         'and arities, never leaf text (sa/ctortext.py).')
+addendum('C08', 'R12: Node.__init__ stores the leaf text it is given; '
+         'R13 = C04.R21 (sa/ctortext.py).')
+addendum('C09', 'R12: the run record binds out / err / exit to stdout / '
+         'stderr / return code by declared field order (sa/streams.py); '
+         'R13: SIGCHLD is never touched and nobody waits for any child '
+         '(sa/sigchld.py).')
+addendum('C10', 'R11 = C09.R12; R12 = C09.R13; R13 = the tmpfiles part of '
+         'C09.R6.')
+addendum('C11', 'R13 = C13.R2-R4; R14 = C15.R13.')
+addendum('C12', 'R10 = the cache part of C05.R4.')
+addendum('C13', 'R7: the reader allocates one node object per position '
+         '(sa/freshnodes.py).')
+addendum('C14', 'R14: must-pass-through - a scheduled mutator is handed on '
+         'on every normal path of _apply_mutator and of the loops over a '
+         'pass (sa/mustpass.py); R15 = the dfs / contains part of C12.R5.')
+addendum('C16', 'R10 also covers memoised helpers in the mutator modules.')
